@@ -7,9 +7,9 @@ VERIF = os.path.dirname(os.path.dirname(os.path.abspath(__file__)))
 PROPS = os.path.join(VERIF, "lean", "PlushProofs", "Props")
 
 CONF = {
- "C01": {"gen": ["WriteCases"], "streams": [("render-gen", "full"), ("render-struct", "full")],
+ "C01": {"gen": ["WriteCases"], "streams": [("render-gen", "full"), ("render-struct", "full"), ("render-lit", "full")],
          "assume": ["fmt.Stringer values, named string types and time formats are outside the property's wording and outside the plumbing grammar"]},
- "C02": {"gen": ["CharClasses"], "streams": [("lex-text", "full"), ("parse-text", "full"), ("render-gen", "full")], "assume": []},
+ "C02": {"gen": ["CharClasses"], "streams": [("lex-text", "full"), ("parse-text", "full"), ("render-gen", "full"), ("render-lit", "full")], "assume": []},
  "C03": {"gen": ["ParseFns", "Keywords", "CharClasses", "Precedences"],
          "streams": [("parse-tok", "kind"), ("parse-text", "kind"), ("lex-text", "kind"), ("lex-nul", "kind")],
          "assume": ["Go stack exhaustion on pathologically deep nesting is outside the model (nesting to depth 256 is exercised by the oracle)"]},
